@@ -5,6 +5,7 @@ import (
 	"context"
 	"fmt"
 	"os"
+	"runtime"
 	"sort"
 	"strings"
 	"unicode"
@@ -68,6 +69,7 @@ type rtCase struct {
 	Delim         string `json:"delim,omitempty"` // CSV
 	Fixed         string `json:"fixed,omitempty"` // auto | explicit | single
 	Slack         []int  `json:"slack,omitempty"` // explicit/single: column width = widest content + slack (negative: too narrow)
+	Widths        []int  `json:"widths,omitempty"` // explicit/single: absolute column widths in bytes (overrides Slack; CLI dialect check)
 	Enc           string `json:"enc"`
 	LB            string `json:"lb"`
 	EncloseAll    bool   `json:"enclose_all,omitempty"`
@@ -180,8 +182,13 @@ func (c rtCase) malformed() string {
 		if !in(c.Fixed, []string{"auto", "explicit", "single"}) {
 			return "fixed mode"
 		}
-		if c.Fixed != "auto" && len(c.Slack) != c.ncols() {
+		if c.Fixed != "auto" && len(c.Slack) != c.ncols() && len(c.Widths) != c.ncols() {
 			return "slack length"
+		}
+		for _, w := range c.Widths {
+			if w < 1 || w > 4096 || (isUTF16(c.Enc) && w%2 != 0) {
+				return "column width"
+			}
 		}
 	}
 	if c.Enc == "SJIS" {
@@ -358,6 +365,9 @@ func hasBreak(s string) bool { return strings.ContainsAny(s, "\r\n") }
 // fixedWidths: the byte widths of the columns. auto: widest written content
 // (what "SPACES" output measures); explicit/single: widest content + slack, at least 1.
 func (c rtCase) fixedWidths() []int {
+	if c.Fixed != "auto" && len(c.Widths) == c.ncols() {
+		return append([]int{}, c.Widths...)
+	}
 	w := make([]int, c.ncols())
 	if c.headerWritten() {
 		for i, h := range c.Header {
@@ -767,8 +777,10 @@ func genHeader(t *rapid.T, c *rtCase, n int, dirty bool) []string {
 	return out
 }
 
-// genTable draws the option vector and the table. cli: shapes for the CLI checks (no reader variants).
-func genTable(t *rapid.T, cli bool) rtCase {
+// genTableOpts draws the option vector and the table. cli: shapes for the CLI
+// checks (no reader variants); allowDirty: 15% of the cases may contain texts
+// the format cannot spell; safeHeader: column names are plain identifiers.
+func genTableOpts(t *rapid.T, cli bool, allowDirty bool, safeHeader bool) rtCase {
 	c := rtCase{}
 	c.Format = formats[fw.Weighted(t, "format", []int{26, 12, 14, 20, 14, 14})]
 	if c.isJSON() {
@@ -797,17 +809,37 @@ func genTable(t *rapid.T, cli bool) rtCase {
 	if c.LB == "CR" && !c.isJSON() && avoiding(avoidCRTerminatedFile, "cr_terminated_file_unloadable") {
 		c.Strip = true
 	}
-	dirty := fw.Pct(t, "dirty", 15)
-	big := fw.Weighted(t, "big", []int{91, 6, 3})
-	if big > 0 && avoiding(avoidPartialOutputOnRefusal, "partial_output_on_refusal") {
-		dirty = false
+	dirty := fw.Pct(t, "dirty", 15) && allowDirty
+	big := fw.Weighted(t, "big", []int{94, 4, 2})
+	if safeHeader {
+		big = 0
+	}
+	if big > 0 {
+		if avoiding(avoidPartialOutputOnRefusal, "partial_output_on_refusal") {
+			dirty = false
+		} else if allowDirty && (c.Format == "LTSV" || c.Format == "FIXED") {
+			dirty = fw.Pct(t, "bigdirty", 50)
+		}
 	}
 
 	ncols := fw.Range(t, "ncols", 1, 4)
 	if c.Format == "LTSV" && ncols == 1 && avoiding(avoidLTSVSingleField, "ltsv_single_field_record_dropped") {
 		ncols = fw.Range(t, "ncols2", 2, 4)
 	}
-	c.Header = genHeader(t, &c, ncols, dirty)
+	if safeHeader {
+		for i := 0; i < ncols; i++ {
+			c.Header = append(c.Header, safeNames[(fw.Uniform(t, "hbase", len(safeNames))+i*5)%len(safeNames)])
+		}
+		for i := range c.Header { // distinct (case-insensitively)
+			for j := 0; j < i; j++ {
+				if strings.EqualFold(c.Header[i], c.Header[j]) {
+					c.Header[i] += fmt.Sprint(i + 1)
+				}
+			}
+		}
+	} else {
+		c.Header = genHeader(t, &c, ncols, dirty)
+	}
 	toks := allowedTokens(&c, dirty && big == 0, false)
 	nrows := fw.Range(t, "nrows", 0, 6)
 	if big > 0 && nrows == 0 {
@@ -1001,9 +1033,23 @@ func encodeInproc(c rtCase) (out []byte, encErr error, harness error) {
 	}
 	opts := s.Tx.Flags.ExportOptions.Copy()
 	var buf bytes.Buffer
-	_, encErr = query.EncodeView(context.Background(), &buf, buildView(c), opts, s.Tx.Palette)
+	func() {
+		defer func() {
+			if r := recover(); r != nil {
+				stack := make([]byte, 3000)
+				stack = stack[:runtime.Stack(stack, false)]
+				encErr = &encodePanic{fmt.Sprintf("%v\n%s", r, stack)}
+			}
+		}()
+		_, encErr = query.EncodeView(context.Background(), &buf, buildView(c), opts, s.Tx.Palette)
+	}()
 	return buf.Bytes(), encErr, nil
 }
+
+// encodePanic: EncodeView panicked (reported as a violation, not as a refusal).
+type encodePanic struct{ msg string }
+
+func (e *encodePanic) Error() string { return "panic: " + e.msg }
 
 // bomless is the encoding name without its byte order mark.
 func bomless(enc string) string {
@@ -1050,6 +1096,11 @@ func (c rtCase) numberedHeader() []string {
 
 // compareLoaded compares what csvq loaded with the written table.
 func compareLoaded(c rtCase, got run.Tbl, withoutNull bool) string {
+	return compareLoadedMode(c, got, withoutNull, false)
+}
+
+// lenientNull: NULL and "" are interchangeable wherever the format is not JSON.
+func compareLoadedMode(c rtCase, got run.Tbl, withoutNull bool, lenientNull bool) string {
 	rows := c.allRows()
 	if len(got.Rows) != len(rows) {
 		return fmt.Sprintf("record count %d, written %d", len(got.Rows), len(rows))
@@ -1109,6 +1160,9 @@ func compareLoaded(c rtCase, got run.Tbl, withoutNull bool) string {
 			}
 			// NULL-ness where the format has two spellings
 			exact := c.isJSON() || (c.isCSV() && c.EncloseAll)
+			if lenientNull && !c.isJSON() {
+				continue
+			}
 			switch {
 			case exact && !(withoutNull && !c.isJSON()):
 				if w.Null != (g.K == "N") {
